@@ -62,6 +62,15 @@ def check(ctx):
         srcs.append(("sv", "`begin_keywords \"%s\" // comment\n`default_nettype none /* c */\n`timescale 1ns/1ps\n// c\nmodule m; wire x; // d\n"
                            "`celldefine\n/* e */ endmodule\n`end_keywords // f\n/* g */\nmodule n; endmodule\n" % spec))
         srcs.append(("sv", "`begin_keywords \"%s\"\n\n  `pragma foo\n// c\nmodule m; endmodule `end_keywords\n" % spec))
+    # operator zoo: every binary operator, nested in an operand, in the contexts where expressions are re-parsed by
+    # several alternatives (constraints, assignments, conditions, properties): short, so all capacities are run
+    OPS = ["+", "->", "-", "**", "*", "/", "%", "===", "==?", "==", "!==", "!=?", "!=", "&&", "||", "&", "|", "^~", "^", "~^",
+           ">>>", ">>", "<<<", "<<", "<->", "<=", "<", ">=", ">"]
+    CTX = ["class c; constraint k { x == (a %s b); } endclass\n", "module m; assign x = (a %s b) == c; endmodule\n",
+           "module m; initial if ((a %s b)) x = 1; endmodule\n", "class c; constraint k { (a %s b) -> { x == 1; } } endclass\n",
+           "module m; initial x = f(a %s b); endmodule\n", "class c; constraint k { x inside {[(a %s b):3]}; } endclass\n"]
+    zoo = [("sv", cx % op) for op in OPS for cx in CTX]
+    srcs += zoo if not q else r.sample(zoo, 12) + [("sv", CTX[0] % "->"), ("sv", CTX[3] % "->")]
     c2, meta = [], {}
     for i, (k, s) in enumerate(srcs):
         small = len(s) <= 120 or k == "pp"
